@@ -236,6 +236,30 @@ OPT_MEMBERS = {'value_or', 'has_value', 'value', 'operator bool', 'operator*', '
 MAYTHROW_MODELS = {'vec_ctor_n', 'vec_reserve', 'vec_resize', 'opt_value', 'vec_at'}
 
 
+class _NoContracts:
+    """view of a Unit without loop contracts/summaries/ghost code and without side effects on it (used for dry runs)"""
+    def __init__(self, unit):
+        self._u = unit
+        self.mode = unit.mode
+        self.rec_types = unit.rec_types
+        self.P = unit.P
+
+    def loop_contract(self, key, k):
+        return []
+
+    def loop_summary(self, key, k):
+        return None
+
+    def ghost(self, key, where):
+        return []
+
+    def slice_for(self, key):
+        return None
+
+    def __getattr__(self, name):
+        return getattr(self._u, name)
+
+
 class FnTranslator:
     """Translate one FunctionDecl to C text."""
 
@@ -246,6 +270,7 @@ class FnTranslator:
         self.loopn = 0
         self.try_stack = []
         self.rules = collections.Counter()
+        self.loop_nodes = {}
         self.local_names = {}
         self.lambda_bodies = {}
         self.callees = set()
@@ -304,6 +329,8 @@ class FnTranslator:
         body = [c for c in n.get('inner', []) or [] if c.get('kind') == 'CompoundStmt']
         sl = self.U.slice_for(self.key) if hasattr(self.U, 'slice_for') else None
         self.slice_stmts = None
+        if '#loop' in self.key and body:
+            return self.loop_body_signature(n, body[0])
         if sl and body:
             stmts = [c for c in body[0].get('inner', []) or []]
             idx = [i for i, c in enumerate(stmts) if c.get('kind') == sl]
@@ -346,6 +373,60 @@ class FnTranslator:
                 nm = c.get('name') or 'p%d' % len(ps)
                 self.local_names[c['id']] = (nm, pt)
                 ps.append((nm, ('ptr', pt[1]) if pt[0] == 'ref' else pt, pt[0] == 'ref'))
+        return ps
+
+    def loop_body_signature(self, n, body):
+        """<fn>#loop<k>: the body of loop k as a function of its free variables, all passed by address (in/out), so that
+        a contract can speak about one arbitrary iteration"""
+        k = int(self.key.rsplit('#loop', 1)[1])
+        base_key = self.key.rsplit('#loop', 1)[0]
+        from .unit import Unit as _Unit
+        probe = FnTranslator(self.P, _Unit(self.P, 'modular'), base_key, n)   # throwaway unit: no contracts, no side effects
+        probe.translate()                       # dry run: fixes the loop numbering exactly as the full translation does
+        if k not in probe.loop_nodes:
+            raise Unsupported('%s has no loop %d' % (base_key, k))
+        loop = probe.loop_nodes[k]
+        kind = loop['kind']
+        if kind == 'CXXForRangeStmt':
+            stmts = [loop['inner'][-1]]
+        elif kind == 'ForStmt':
+            stmts = [loop['inner'][4]]
+        elif kind == 'WhileStmt':
+            stmts = [loop['inner'][-1]]
+        elif kind == 'DoStmt':
+            stmts = [loop['inner'][0]]
+        else:
+            raise Unsupported('body slice of a %s loop' % kind)
+        self.slice_stmts = stmts
+        self.ret_t = ('void',)
+        self.outer_ret_t = self.P.tp.parse(self._ret_type_string(n))
+        inside = set()
+        for st in stmts:
+            for x in astload.walk(st):
+                if x.get('kind') in ('VarDecl', 'ParmVarDecl'):
+                    inside.add(x['id'])
+        decls = {}
+        for x in astload.walk(n):
+            if x.get('kind') in ('VarDecl', 'ParmVarDecl') and x['id'] not in inside:
+                decls[x['id']] = x
+        seen, ps = [], []
+        uses_this = False
+        for st in stmts:
+            for x in astload.walk(st):
+                if x.get('kind') == 'CXXThisExpr':
+                    uses_this = True
+                if x.get('kind') == 'DeclRefExpr' and x['referencedDecl']['id'] in decls and x['referencedDecl']['id'] not in seen:
+                    seen.append(x['referencedDecl']['id'])
+        if uses_this and self.is_method:
+            ps.append(('self', ('ptr', ('rec', self.owner)), True))
+        for rid in seen:
+            d = decls[rid]
+            t = self.T(d)
+            if strip_ref(t)[0] == 'opaque':
+                self.local_names[rid] = (d['name'], t)
+                continue
+            self.local_names[rid] = (d['name'], ('ref', strip_ref(t)))
+            ps.append((d['name'], ('ptr', strip_ref(t)), True))
         return ps
 
     def translate(self):
@@ -489,8 +570,11 @@ class FnTranslator:
         inner = [x for x in n.get('inner', []) or []]
         if not inner:
             return self.flush() + ['return;']
+        g = self.ghost('before_return')
+        if getattr(self, 'outer_ret_t', None) is not None:
+            raise Unsupported('return with a value inside a loop body slice')
         e = self.rvalue_for(inner[0], self.ret_t)
-        return self.flush() + ['return %s;' % e]
+        return g + self.flush() + ['return %s;' % e]
 
     def s_IfStmt(self, n):
         inner = n['inner']
@@ -515,14 +599,49 @@ class FnTranslator:
         e = self.ex(n)
         return e
 
-    def loop_annot(self):
+    def loop_annot(self, node=None):
         k = self.loopn
         self.loopn += 1
+        if node is not None:
+            self.loop_nodes[k] = node
         return k, self.U.loop_contract(self.key, k)
+
+    LOOP_KINDS = ('ForStmt', 'WhileStmt', 'DoStmt', 'CXXForRangeStmt')
+
+    def count_loops(self, node):
+        """number of loops (in the translator's sense) inside an AST subtree"""
+        c = 0
+        for x in astload.walk(node):
+            if x.get('kind') in self.LOOP_KINDS:
+                c += 1
+            elif x.get('kind') == 'CallExpr':
+                try:
+                    if self._callee_name(x) in ('accumulate', 'find_if') and self._is_std_callee(x):
+                        c += 1
+                except Exception:
+                    pass
+        return c
+
+    def summarised(self, n, placeholders=None):
+        """loop<k>.summary in the contract: the loop statement is replaced by the summary (its per-iteration facts are
+        proved on the body slice <fn>#loop<k>; the step from those to the summary is the sequencing lemma)"""
+        k = self.loopn
+        summ = self.U.loop_summary(self.key, k) if hasattr(self.U, 'loop_summary') else None
+        if summ is None:
+            return None
+        self.loop_nodes[k] = n
+        self.loopn += self.count_loops(n)     # the loop itself and everything nested in it
+        self.hit('loop-summarised')
+        for a, b in (placeholders or {}).items():
+            summ = summ.replace(a, b)
+        return ['/* loop %d replaced by its summary (see contract) */' % k, '{', '  ' + summ, '}']
 
     def s_ForStmt(self, n):
         init, condvar, cond, inc, body = n['inner']
-        k, annot = self.loop_annot()
+        sm = self.summarised(n)
+        if sm is not None:
+            return (['{'] + ['  ' + l for l in (self.stmt(init) if init else [])] + ['  ' + l for l in sm] + ['}'])
+        k, annot = self.loop_annot(n)
         out = ['{']
         if init:
             out += ['  ' + l for l in self.stmt(init)]
@@ -532,21 +651,38 @@ class FnTranslator:
         i = self.ex(inc, discard=True) if inc else ''
         if self.pre:
             raise Unsupported('loop increment needs hoisting in %s' % self.key)
+        out += ['  ' + g for g in self.ghost('before_loop%d' % k)]
         out.append('  for (; %s; %s) /* loop %d */' % (c, i, k))
         out += ['  ' + a for a in annot]
-        out += ['  ' + l for l in self.reach(self.block_braced(body), k, annot)]
+        out += ['  ' + l for l in self.reach(self.with_body_ghost(self.block_braced(body), k), k, annot)]
+        out += ['  ' + g for g in self.ghost('after_loop%d' % k)]
         out.append('}')
         return out
+
+    def with_body_ghost(self, body_lines, k):
+        """ghost statements at the start and the end of a loop body (contracts: at.loop<k>_body_start / _body_end)"""
+        a, b = self.ghost('loop%d_body_start' % k), self.ghost('loop%d_body_end' % k)
+        if not a and not b:
+            return body_lines
+        assert body_lines[0].strip() == '{' and body_lines[-1].strip() == '}'
+        return [body_lines[0]] + ['  ' + x for x in a] + body_lines[1:-1] + ['  ' + x for x in b] + [body_lines[-1]]
 
     def s_WhileStmt(self, n):
         inner = n['inner']
         cond, body = inner[0], inner[-1]
-        k, annot = self.loop_annot()
+        sm = self.summarised(n)
+        if sm is not None:
+            return sm
+        k, annot = self.loop_annot(n)
         c = self.ex(cond)
         if self.pre:
             raise Unsupported('loop condition needs hoisting in %s' % self.key)
-        out = ['while (%s) /* loop %d */' % (c, k)] + annot + self.reach(self.block_braced(body), k, annot)
+        out = self.ghost('before_loop%d' % k) + ['while (%s) /* loop %d */' % (c, k)] + annot + self.reach(self.with_body_ghost(self.block_braced(body), k), k, annot) + self.ghost('after_loop%d' % k)
         return out
+
+    def ghost(self, where):
+        g = self.U.ghost(self.key, where) if hasattr(self.U, 'ghost') else []
+        return list(g)
 
     def reach(self, body_lines, k, annot):
         """anti-vacuity: a contracted loop body starts with a marker that must be reachable (expected to FAIL)"""
@@ -559,7 +695,10 @@ class FnTranslator:
         """do S while (c);  ->  { _Bool first = 1; while (first || c) { first = 0; S } }
         (cbmc's loop-contract instrumentation rejects do/while; `continue` still reaches the evaluation of c)"""
         body, cond = n['inner']
-        k, annot = self.loop_annot()
+        sm = self.summarised(n)
+        if sm is not None:
+            return sm
+        k, annot = self.loop_annot(n)
         b = self.block_braced(body)
         c = self.ex(cond)
         if self.pre:
@@ -580,7 +719,13 @@ class FnTranslator:
         rinit = [x for x in rv.get('inner', []) if 'kind' in x][0]
         rt = strip_ref(self.T(rinit)) if 'type' in rinit else None
         cont = self.addr(rinit)
-        k, annot = self.loop_annot()
+        if hasattr(self.U, 'loop_summary') and self.U.loop_summary(self.key, self.loopn) is not None:
+            k0 = self.loopn
+            self.U.need_type(rt)
+            pre = self.flush()
+            sm = self.summarised(n, {'\\range': '__r%d' % k0})
+            return ['{'] + ['  ' + l for l in pre] + ['  %s* __r%d = %s;' % (self.ctype(rt), k0, cont)] + ['  ' + l for l in sm] + ['}']
+        k, annot = self.loop_annot(n)
         out = ['{'] + ['  ' + l for l in self.flush()]
         vd = [x for x in astload.walk(var_decl) if x.get('kind') == 'VarDecl'][0]
         vt = self.T(vd)
@@ -595,8 +740,11 @@ class FnTranslator:
         else:
             raise Unsupported('range-for over %r' % (rt,))
         self.local_names[vd['id']] = (vd['name'], vt)
+        def sub_(x):
+            return x.replace('\\idx', idx).replace('\\range', cvar)
+        out += ['  ' + sub_(g) for g in self.ghost('before_loop%d' % k)]
         out.append('  for (size_t %s = 0; %s < %s->size; ++%s) /* loop %d */' % (idx, idx, cvar, idx, k))
-        out += ['  ' + a.replace('\\idx', idx).replace('\\range', cvar) for a in annot]
+        out += ['  ' + sub_(a) for a in annot]
         out.append('  {')
         if annot:
             out.append('    VERIF_REACH("vacuity: body of loop %d is reachable under its invariant");' % k)
@@ -607,8 +755,11 @@ class FnTranslator:
                 out.append('    %s %s = %s(&%s->data[%s]);' % (self.ctype(vt), vd['name'], self.U.copy_fn(vt), cvar, idx))
             else:
                 out.append('    %s %s = %s->data[%s];' % (self.ctype(vt), vd['name'], cvar, idx))
+        out += ['    ' + sub_(g) for g in self.ghost('loop%d_body_start' % k)]
         out += ['    ' + l for l in self.block_braced(body)]
+        out += ['    ' + sub_(g) for g in self.ghost('loop%d_body_end' % k)]
         out.append('  }')
+        out += ['  ' + sub_(g) for g in self.ghost('after_loop%d' % k)]
         out.append('}')
         return out
 
@@ -1335,7 +1486,7 @@ class FnTranslator:
         fn, caps = self.lambda_fn(lam, None)
         iv = self.ex(init)
         acc, idx = self.tmp('acc'), self.tmp('k')
-        k, annot = self.loop_annot()
+        k, annot = self.loop_annot(n)
         lp = self.U.lambda_params(fn)
         # element is passed as the lambda declares it: by value, by const ref, or converted (T -> optional<T>)
         elem = '&%s->data[%s]' % (a, idx)
@@ -1390,7 +1541,7 @@ class FnTranslator:
         fn, caps = self.lambda_fn(lam, None)
         lp = self.U.lambda_params(fn)
         idx = self.tmp('k')
-        k, annot = self.loop_annot()
+        k, annot = self.loop_annot(n)
         arg = ('&%s->data[%s]' if lp[0][0] == 'ref' else '%s->data[%s]') % (a, idx)
         self.pre.append('size_t %s = 0;' % idx)
         self.pre.append('for (; %s < %s->size; ++%s) /* loop %d */ %s { if (%s(%s)) break; }' % (
